@@ -54,7 +54,15 @@ def r1(ctx):
             ctx.check(r.fixity == "prefix" and r.assoc == "right", "C16.R1", f"unary {r.ident} is a right-associative prefix", where(r),
                       ctx.construct(f, text=f"associativity {r.symbol}/{r.arity}"), f"declared associativity={r.assoc}, fixity={r.fixity}")
         if r.symbol == ",":
-            ok = r.structural and r.accepts is not None and canon(r.accepts) == "lambda v0: all((v1.symbol == ',' for v1 in v0 if isinstance(v1, Operator)))"
+            # ∀ c ∈ context: c is not an operator, or it is another `,` — whichever way the quantifier is spelled
+            from ..util import atom_mapper, truth_table, universal_form
+            ok = False
+            if r.structural and isinstance(r.accepts, ast.Lambda) and len(r.accepts.args.args) == 1:
+                uf = universal_form(r.accepts.body)
+                if uf is not None and uf[1] == r.accepts.args.args[0].arg:
+                    v = uf[0]
+                    am = atom_mapper({f"isinstance({v}, Operator)": 0, f"{v}.symbol == ','": 1, f"',' == {v}.symbol": 1})
+                    ok = truth_table(uf[2], am, 2) == (True, True, False, True)
             ctx.check(ok, "C16.R1", "`,` is structural and only accepted at top level", where(r), ctx.construct(f, text="comma"),
                       f"structural={r.structural}, accepts_context=`{norm(r.accepts) if r.accepts is not None else None}`")
         else:
